@@ -35,6 +35,10 @@ bool Symtab::load(const char *path) {
             if (!strcmp(name, "verif_repo_data_end")) data_.hi = sy[k].st_value;
             if (!strcmp(name, "verif_repo_bss_begin")) bss_.lo = sy[k].st_value + 1;
             if (!strcmp(name, "verif_repo_bss_end")) bss_.hi = sy[k].st_value;
+            if (!strcmp(name, "verif_caller_data_begin")) cdata_.lo = sy[k].st_value + 1;
+            if (!strcmp(name, "verif_caller_data_end")) cdata_.hi = sy[k].st_value;
+            if (!strcmp(name, "verif_caller_bss_begin")) cbss_.lo = sy[k].st_value + 1;
+            if (!strcmp(name, "verif_caller_bss_end")) cbss_.hi = sy[k].st_value;
             if (ELF64_ST_TYPE(sy[k].st_info) == STT_OBJECT && sy[k].st_shndx != SHN_UNDEF) data_syms_.push_back(Sym{sy[k].st_value, sy[k].st_size, name});
             if (ELF64_ST_TYPE(sy[k].st_info) != STT_FUNC || sy[k].st_shndx == SHN_UNDEF) continue;
             syms_.push_back(Sym{sy[k].st_value, sy[k].st_size, name});
@@ -45,6 +49,8 @@ bool Symtab::load(const char *path) {
     std::sort(data_syms_.begin(), data_syms_.end(), [](const Sym &a, const Sym &b) { return a.addr < b.addr; });
     if (data_.hi < data_.lo) data_ = Range();
     if (bss_.hi < bss_.lo) bss_ = Range();
+    if (cdata_.hi < cdata_.lo) cdata_ = Range();
+    if (cbss_.hi < cbss_.lo) cbss_ = Range();
     return !syms_.empty();
 }
 
